@@ -12,7 +12,8 @@ THEOREMS = ["Hyp.Persist." + t for t in (
     "c09_undisciplined_lost", "c09_undisciplined_survives_abort", "c09_hypatia_blocks_disciplined",
     "c09_blocks_compose",
     # derived from the object-level index models (Properties/C09Index.lean)
-    "c09_field_op_disciplined", "c09_keyword_op_disciplined", "c09_facet_op_disciplined",
+    "c09_steps_are_the_log_gained", "c09_field_op_disciplined", "c09_keyword_op_disciplined",
+    "c09_facet_op_disciplined",
     "c09_text_op_disciplined", "c09_text_wordinfo_calls_disciplined", "c09_modelled_disciplined",
     "c09_index_histories_refine", "c09_index_commit_reopen", "c09_add_wordinfo_slip_lost",
     "c09_mass_add_slip_lost")]
